@@ -5,6 +5,7 @@
 // during the cycle, "equal to fresh" and retained capacity after every clear,
 // accessors across re-creation, element lifetime through a registry, and zero
 // growth of the resource once a fixed workload is repeated. libFuzzer + ASan.
+#include "known.h"
 #include <babylon/reusable/manager.h>
 #include <babylon/reusable/string.h>
 #include <babylon/reusable/vector.h>
@@ -152,10 +153,7 @@ struct Obj {
 // sub-message field is touched before a re-creation. Excluded from generation unless VF_ALLOW_KNOWN=1.
 bool allow_known() {
   static int v = -1;
-  if (v < 0) {
-    const char* e = getenv("VF_ALLOW_KNOWN");
-    v = (e && *e && *e != '0') ? 1 : 0;
-  }
+  if (v < 0) v = vf_allow_known("f7") ? 1 : 0;
   return v == 1;
 }
 bool g_excluded_f7 = false;
